@@ -772,3 +772,61 @@ class RoundTripMeta(oracles.RoundTrip):
             L.append(s.line())
             self.cases[L[-1]] = f
         return L
+
+
+class WellFormedX(Oracle):
+    """C12 at the API level for the trees of RoundTripX (opaque nodes from XML / JSON / the API, anydata and anyxml,
+    operations): what libyang prints as XML must be read by expat (namespace-aware, wrapped in one root element) and what
+    it prints as JSON by Python's json module - readers that share no code with libyang."""
+    name = "wellformedx"
+    driver = "t_doc"
+
+    def gen(self, rng, tier, scale=1.0):
+        src = RoundTripX()
+        L = []
+        for line in src.gen(rng, tier, scale * 0.6):
+            f = line.split("\t")
+            hdr = f[1].split(" ")
+            fam, nsetup = hdr[1], int(hdr[2])
+            if fam == "big":
+                continue
+            cmds = f[2:2 + nsetup]
+            po = 0 if fam.startswith("op-") else SIB
+            node = "t0"
+            L.append("doc\t#w %s %d\t" % (fam, nsetup) + "\t".join(cmds + ["print %s x %d" % (node, po | PRINT_SHRINK), "print %s x %d" % (node, po),
+                                                                          "print %s j %d" % (node, po | PRINT_SHRINK), "print %s j %d" % (node, po)]))
+        return L
+
+    def judge(self, line, out):
+        import json
+        import xml.parsers.expat
+        if crashed(out):
+            return (None, "crash: " + out)
+        r = results(out)[1:]
+        hdr = line.split("\t")[1].split(" ")
+        fam, nsetup = hdr[1], int(hdr[2])
+        for x in r[:nsetup]:
+            if rc(x) != 0:
+                return None
+        for k, fmt in ((0, "x"), (1, "x"), (2, "j"), (3, "j")):
+            res = r[nsetup + k]
+            if rc(res) != 0:
+                return (None, "print failed (%s, %s): %s" % (fam, fmt, res))
+            data = payload(res)
+            if fmt == "x":
+                try:
+                    p = xml.parsers.expat.ParserCreate(namespace_separator=" ")
+                    p.Parse(b"<root>" + data + b"</root>", True)
+                except xml.parsers.expat.ExpatError as e:
+                    return (None, "printed XML is not well-formed (%s): %s: %r" % (fam, e, data[:200]))
+            else:
+                try:
+                    json.loads(data.decode("utf-8"))
+                except (ValueError, UnicodeDecodeError) as e:
+                    tag = None
+                    if fam in ("opaq-xml",) and b",," in data:
+                        tag = "json-opaq-mixed-array"
+                    elif fam.startswith("any-"):
+                        tag = "json-anydata-nested-same-list"
+                    return (tag, "printed JSON is not RFC 8259 JSON (%s): %s: %r" % (fam, e, data[:200]))
+        return None
